@@ -1066,3 +1066,933 @@ Proof.
     rewrite (CI) with (k := k) (t := t') in Ht; [inversion Ht; reflexivity| |exact El].
     unfold ok in Eok. intros Hiso. rewrite Hiso in Eok. discriminate.
 Qed.
+
+(* ---------- publications: Drop / Deliver ---------- *)
+Lemma tinfo_eqb_eq : forall a b, tinfo_eqb a b = true <-> a = b.
+Proof.
+  intros [s1 e1] [s2 e2]. unfold tinfo_eqb. simpl. rewrite andb_true_iff, pstate_eqb_eq, Bool.eqb_true_iff.
+  split; [intros [-> ->]; reflexivity|intros H; inversion H; auto].
+Qed.
+
+Lemma otinfo_eqb_eq : forall a b, option_eqb tinfo_eqb a b = true <-> a = b.
+Proof.
+  intros [a|] [b|]; simpl; try (split; [discriminate|intros H; inversion H]); try tauto.
+  rewrite tinfo_eqb_eq. split; [intros ->; reflexivity|intros H; inversion H; reflexivity].
+Qed.
+
+Lemma loss_harmless : forall nj i k tr rest b,
+  loss_harmful nj i k tr rest = false -> window_base nj i k = Some b -> final k rest b = Some tr.
+Proof.
+  intros nj i k tr rest b H Hb. unfold loss_harmful in H. rewrite Hb in H.
+  apply negb_false_iff in H. apply otinfo_eqb_eq in H. exact H.
+Qed.
+
+(* In a window the two readings of "harmless" coincide: the lost event is superseded by a queued one, or it is
+   already contained in the snapshot / view. (Statement of what `loss_harmful` means for a discarded event;
+   `tr` is the true state, equal to the event's payload when nothing supersedes it.) *)
+Lemma loss_harmless_iff : forall nj i k t rest b, window_base nj i k = Some b ->
+  (loss_harmful nj i k t rest = false <->
+   (last_ev k rest = Some t \/ (last_ev k rest = None /\ b = Some t))).
+Proof.
+  intros nj i k t rest b Hb. unfold loss_harmful. rewrite Hb, negb_false_iff, otinfo_eqb_eq. unfold final.
+  destruct (last_ev k rest) as [t'|]; split.
+  - intros H. left. exact H.
+  - intros [H|[H _]]; [exact H|discriminate].
+  - intros H. right. auto.
+  - intros [H|[_ H]]; [discriminate|exact H].
+Qed.
+
+(* the pair (receiver j, sender i) when the head of i's queue towards j is consumed *)
+Lemma pinv_pop : forall nj ni nj' ni' j i k st e nm rest (applied : bool),
+  pinv nj ni j i ->
+  out_queue ni j = MEvent k st e nm :: rest -> out_queue ni' j = rest ->
+  cn_truth ni' = cn_truth ni -> adm (cn_ctx ni') j = adm (cn_ctx ni) j ->
+  adm (cn_ctx nj') i = adm (cn_ctx nj) i -> chk (cn_ctx nj') i = chk (cn_ctx nj) i -> cn_ntf nj' = cn_ntf nj ->
+  (forall k', rvinfo (cn_ctx nj') k' i =
+              if applied && Z.eqb k' k then Some (st, e) else rvinfo (cn_ctx nj) k' i) ->
+  (applied = true -> exists s, adm (cn_ctx nj) i = Some s /\ admitted s = true) ->
+  (applied = false -> forall tr, aget k (cn_truth ni) = Some tr -> loss_harmful nj i k tr rest = false) ->
+  pinv nj' ni' j i.
+Proof.
+  intros nj ni nj' ni' j i k st e nm rest applied [CI PI] Hq Hq' Ht Has Ha Hc Hn Hv Happ Hloss. split.
+  - intros Hiso k' t Hl. rewrite Ht. apply CI; [rewrite <- Has; exact Hiso|].
+    rewrite Hq. simpl. rewrite <- Hq'. rewrite Hl. reflexivity.
+  - intros k' b t Hb Hk. rewrite Hq'. rewrite Ht in Hk.
+    destruct applied.
+    + destruct (Happ eq_refl) as [s [Es Hs]].
+      assert (Hwb : window_base nj i k' = Some (rvinfo (cn_ctx nj) k' i)).
+      { unfold window_base. rewrite Es. destruct s; simpl in Hs; try discriminate; reflexivity. }
+      assert (Hwb' : window_base nj' i k' = Some (rvinfo (cn_ctx nj') k' i)).
+      { unfold window_base. rewrite Ha, Es. destruct s; simpl in Hs; try discriminate; reflexivity. }
+      rewrite Hwb' in Hb. inversion Hb; subst b. clear Hb.
+      pose proof (PI k' _ t Hwb Hk) as P. rewrite Hq, final_cons_ev in P.
+      rewrite Hv. simpl andb. rewrite (Z.eqb_sym k' k). exact P.
+    + assert (Hwb : window_base nj i k' = Some b).
+      { rewrite <- Hb. symmetry. apply window_base_frame; auto. rewrite Hv. reflexivity. }
+      destruct (Z.eqb_spec k k') as [Ek|Ek].
+      * subst k'. apply (loss_harmless nj i k t rest b); [apply (Hloss eq_refl); exact Hk|exact Hwb].
+      * pose proof (PI k' b t Hwb Hk) as P. rewrite Hq, final_cons_ev in P.
+        destruct (Z.eqb_spec k k'); [contradiction|]. exact P.
+Qed.
+
+Lemma pinv_pop_other : forall nj ni ni' j i m rest,
+  pinv nj ni j i -> (forall k st e nm, m <> MEvent k st e nm) ->
+  out_queue ni j = m :: rest -> out_queue ni' j = rest ->
+  cn_truth ni' = cn_truth ni -> adm (cn_ctx ni') j = adm (cn_ctx ni) j ->
+  pinv nj ni' j i.
+Proof.
+  intros nj ni ni' j i m rest [CI PI] Hm Hq Hq' Ht Has. split.
+  - intros Hiso k t Hl. rewrite Ht. apply CI; [rewrite <- Has; exact Hiso|].
+    rewrite Hq, last_ev_cons_other; [rewrite <- Hq'; exact Hl|]. intros; apply Hm.
+  - intros k b t Hb Hk. rewrite Ht in Hk. pose proof (PI k b t Hb Hk) as P.
+    unfold final in *. rewrite Hq, last_ev_cons_other in P; [rewrite Hq'; exact P|]. intros; apply Hm.
+Qed.
+
+(* what a step that consumes the head of i0's queue towards j0 does to the cluster: i0's node loses the head,
+   j0's Context may change by a process event of i0 *)
+Lemma pop_cluster : forall c i0 j0 ni nj m rest ctx' (applied : bool) k st e nm,
+  cwf c -> i0 <> j0 ->
+  aget i0 (c_nodes c) = Some ni -> aget j0 (c_nodes c) = Some nj ->
+  out_queue ni j0 = m :: rest ->
+  rwf ctx' -> r_adm ctx' = r_adm (cn_ctx nj) ->
+  (forall k' i', rvinfo ctx' k' i' =
+       if applied && Z.eqb k' k && Z.eqb i' i0 then Some (st, e) else rvinfo (cn_ctx nj) k' i') ->
+  (applied = true -> m = MEvent k st e nm /\ exists s, adm (cn_ctx nj) i0 = Some s /\ admitted s = true) ->
+  let c' := tick_clock (set_node (set_node c i0 (set_out ni (aset j0 rest (cn_out ni)))) j0 (set_ctx nj ctx')) in
+  cwf c' /\
+  ((applied = false -> forall k st e nm, m = MEvent k st e nm ->
+       forall tr, aget k (cn_truth ni) = Some tr -> loss_harmful nj i0 k tr rest = false) ->
+   cpinv c -> cpinv c').
+Proof.
+  intros c i0 j0 ni nj m rest ctx' applied k st e nm H Hij Ei Ej Hq Hr Hadm Hv Happ c'.
+  set (ni' := set_out ni (aset j0 rest (cn_out ni))).
+  set (nj' := set_ctx nj ctx').
+  assert (Ha : forall i, adm ctx' i = adm (cn_ctx nj) i) by (intros; unfold adm; rewrite Hadm; reflexivity).
+  assert (Hc : forall i, chk ctx' i = chk (cn_ctx nj) i) by (intros; unfold chk; rewrite Hadm; reflexivity).
+  destruct (H i0 ni Ei) as [A B C D F G].
+  destruct (H j0 nj Ej) as [A1 B1 C1 D1 F1 G1].
+  assert (Hq0 : exists q0, aget j0 (cn_out ni) = Some q0).
+  { unfold out_queue in Hq. destruct (aget j0 (cn_out ni)) as [q0|]; [eauto|discriminate]. }
+  split.
+  - unfold c'. fold ni'. fold nj'.
+    change (tick_clock (set_node (set_node c i0 ni') j0 nj'))
+      with (set_node (set_node (tick_clock c) i0 ni') j0 nj').
+    assert (W1 : cwf (set_node (tick_clock c) i0 ni')).
+    { apply (cwf_set (tick_clock c) i0 ni); auto.
+      - apply cwf_tick. exact H.
+      - unfold ni'. cbn [set_out cn_out]. rewrite aget_aset_other by exact Hij. exact C.
+      - intros j q Hjq. unfold ni'. cbn [set_out cn_out]. destruct (Z.eq_dec j j0) as [->|N].
+        + rewrite aget_aset_same. eauto.
+        + rewrite aget_aset_other by exact N. eauto.
+      - intros i' ok ts Hi. cbn [tick_clock c_now]. pose proof (F i' ok ts Hi). lia.
+      - intros i'. cbn [tick_clock c_now]. unfold ni'. cbn [set_out cn_ctx]. pose proof (G i'). lia. }
+    apply (cwf_set _ j0 nj); auto.
+    + rewrite nodes_set. destruct (Z.eqb_spec j0 i0); [congruence|]. exact Ej.
+    + intros j q Hjq. eauto.
+    + intros i' ok ts Hi. cbn [set_node tick_clock c_now]. pose proof (F1 i' ok ts Hi). lia.
+    + intros i'. cbn [set_node tick_clock c_now]. unfold nj'. cbn [set_ctx cn_ctx]. rewrite Hc. pose proof (G1 i'). lia.
+  - intros Hloss HP. unfold c'. fold ni'. fold nj'. apply cpinv_tick.
+    intros j i nj2 ni2 Hj Hi. rewrite !nodes_set in Hj, Hi.
+    (* old nodes corresponding to the new ones *)
+    set (oldn := fun (x : Z) (n2 : cnode) => if Z.eqb x j0 then nj else if Z.eqb x i0 then ni else n2).
+    assert (Holdj : aget j (c_nodes c) = Some (oldn j nj2)).
+    { unfold oldn. destruct (Z.eqb_spec j j0); [subst; exact Ej|]. destruct (Z.eqb_spec j i0); [subst; exact Ei|exact Hj]. }
+    assert (Holdi : aget i (c_nodes c) = Some (oldn i ni2)).
+    { unfold oldn. destruct (Z.eqb_spec i j0); [subst; exact Ej|]. destruct (Z.eqb_spec i i0); [subst; exact Ei|exact Hi]. }
+    pose proof (HP j i _ _ Holdj Holdi) as P.
+    (* source side facts *)
+    assert (St : cn_truth ni2 = cn_truth (oldn i ni2)).
+    { unfold oldn. destruct (Z.eqb_spec i j0); [inversion Hi; reflexivity|].
+      destruct (Z.eqb_spec i i0); [inversion Hi; reflexivity|reflexivity]. }
+    assert (Sa : forall y, adm (cn_ctx ni2) y = adm (cn_ctx (oldn i ni2)) y).
+    { intros y. unfold oldn. destruct (Z.eqb_spec i j0); [inversion Hi; subst ni2; apply Ha|].
+      destruct (Z.eqb_spec i i0); [inversion Hi; reflexivity|reflexivity]. }
+    (* view side facts *)
+    assert (Va : forall y, adm (cn_ctx nj2) y = adm (cn_ctx (oldn j nj2)) y).
+    { intros y. unfold oldn. destruct (Z.eqb_spec j j0); [inversion Hj; subst nj2; apply Ha|].
+      destruct (Z.eqb_spec j i0); [inversion Hj; reflexivity|reflexivity]. }
+    assert (Vc : forall y, chk (cn_ctx nj2) y = chk (cn_ctx (oldn j nj2)) y).
+    { intros y. unfold oldn. destruct (Z.eqb_spec j j0); [inversion Hj; subst nj2; apply Hc|].
+      destruct (Z.eqb_spec j i0); [inversion Hj; reflexivity|reflexivity]. }
+    assert (Vn : cn_ntf nj2 = cn_ntf (oldn j nj2)).
+    { unfold oldn. destruct (Z.eqb_spec j j0); [inversion Hj; reflexivity|].
+      destruct (Z.eqb_spec j i0); [inversion Hj; reflexivity|reflexivity]. }
+    destruct (Z.eqb_spec j j0) as [Ejj|Ejj]; destruct (Z.eqb_spec i i0) as [Eii|Eii].
+    + (* the pair (j0, i0) *)
+      subst j i. inversion Hj; subst nj2. destruct (Z.eqb_spec i0 j0); [congruence|]. inversion Hi; subst ni2.
+      assert (On : oldn j0 nj' = nj) by (unfold oldn; rewrite Z.eqb_refl; reflexivity).
+      assert (Oi : oldn i0 ni' = ni).
+      { unfold oldn. destruct (Z.eqb_spec i0 j0); [congruence|]. rewrite Z.eqb_refl. reflexivity. }
+      rewrite On, Oi in P.
+      assert (Hq' : out_queue ni' j0 = rest) by apply out_queue_set_same.
+      destruct applied.
+      * destruct (Happ eq_refl) as [Em Hs]. subst m.
+        apply (pinv_pop nj ni nj' ni' j0 i0 k st e nm rest true P Hq Hq'); auto.
+        -- intros k'. unfold nj'. cbn [set_ctx cn_ctx]. rewrite Hv, Z.eqb_refl, andb_true_r. reflexivity.
+        -- discriminate.
+      * assert (Hv0 : forall k' i', rvinfo (cn_ctx nj') k' i' = rvinfo (cn_ctx nj) k' i') by (intros; apply Hv).
+        destruct m as [k1 st1 e1 nm1|tbl nm1|ok1 ts1].
+        -- apply (pinv_pop nj ni nj' ni' j0 i0 k1 st1 e1 nm1 rest false P Hq Hq'); auto.
+           ++ intros k'. apply Hv0.
+           ++ discriminate.
+           ++ intros _ tr Htr. apply (Hloss eq_refl k1 st1 e1 nm1 eq_refl tr Htr).
+        -- apply (pinv_frame nj ni' nj' ni' j0 i0); auto.
+           ++ apply (pinv_pop_other nj ni ni' j0 i0 (MSnapshot tbl nm1) rest P); auto. discriminate.
+           ++ intros k' b Hb. rewrite <- Hb. symmetry. apply window_base_frame; auto.
+        -- apply (pinv_frame nj ni' nj' ni' j0 i0); auto.
+           ++ apply (pinv_pop_other nj ni ni' j0 i0 (MAuth ok1 ts1) rest P); auto. discriminate.
+           ++ intros k' b Hb. rewrite <- Hb. symmetry. apply window_base_frame; auto.
+    + (* view side is j0, another source *)
+      subst j. inversion Hj; subst nj2.
+      apply (pinv_frame _ _ nj' ni2 j0 i P); auto.
+      * unfold oldn. destruct (Z.eqb_spec i j0) as [Eij0|Eij0]; [inversion Hi; reflexivity|].
+        destruct (Z.eqb_spec i i0); [contradiction|reflexivity].
+      * intros Hiso. rewrite Sa. exact Hiso.
+      * intros k' b Hb. rewrite <- Hb. symmetry. apply window_base_frame; auto.
+        unfold nj', oldn. rewrite Z.eqb_refl. cbn [set_ctx cn_ctx]. rewrite Hv.
+        destruct (Z.eqb_spec i i0); [contradiction|]. rewrite andb_false_r. reflexivity.
+    + (* source side is i0, another receiver *)
+      subst i. destruct (Z.eqb_spec i0 j0); [congruence|]. inversion Hi; subst ni2.
+      apply (pinv_frame _ _ nj2 ni' j i0 P); auto.
+      * unfold oldn at 1. destruct (Z.eqb_spec i0 j0); [congruence|]. rewrite Z.eqb_refl.
+        unfold ni'. apply out_queue_set_other. exact Ejj.
+      * intros Hiso. rewrite Sa. exact Hiso.
+      * intros k' b Hb. rewrite <- Hb. symmetry. apply window_base_frame; auto.
+        unfold oldn. destruct (Z.eqb_spec j j0); [contradiction|].
+        destruct (Z.eqb_spec j i0); [inversion Hj; reflexivity|reflexivity].
+    + apply (pinv_frame _ _ nj2 ni2 j i P); auto.
+      * unfold oldn. destruct (Z.eqb_spec i j0); [inversion Hi; reflexivity|].
+        destruct (Z.eqb_spec i i0); [contradiction|reflexivity].
+      * intros Hiso. rewrite Sa. exact Hiso.
+      * intros k' b Hb. rewrite <- Hb. symmetry. apply window_base_frame; auto.
+        unfold oldn. destruct (Z.eqb_spec j j0); [contradiction|].
+        destruct (Z.eqb_spec j i0); [inversion Hj; reflexivity|reflexivity].
+Qed.
+
+Lemma set_node_id : forall c x n, aget x (c_nodes c) = Some n -> set_node c x (set_ctx n (cn_ctx n)) = c.
+Proof.
+  intros [nodes now] x [t cx o q] H. unfold set_node, set_ctx. cbn [c_nodes c_now cn_truth cn_ctx cn_out cn_ntf] in *.
+  rewrite (aset_aget_id x _ nodes H). reflexivity.
+Qed.
+
+Lemma self_queue_empty : forall c i n, cwf c -> aget i (c_nodes c) = Some n -> out_queue n i = [].
+Proof. intros c i n H E. unfold out_queue. rewrite (nw_self _ _ _ (H i n E)). reflexivity. Qed.
+
+(* ---------- Drop ---------- *)
+Lemma step_drop : forall c i0 j0, cwf c ->
+  exists c', cstep c (Drop i0 j0) = Ok c' /\ cwf c' /\ (cpinv c -> harmful c (Drop i0 j0) = false -> cpinv c').
+Proof.
+  intros c i0 j0 H. unfold cstep; cbv zeta.
+  destruct (aget i0 (c_nodes c)) as [ni|] eqn:Ei.
+  2:{ eexists. split; [reflexivity|]. split; [apply cwf_tick; exact H|auto]. }
+  destruct (aget j0 (c_nodes c)) as [nj|] eqn:Ej.
+  2:{ eexists. split; [reflexivity|]. split; [apply cwf_tick; exact H|auto]. }
+  destruct (out_queue ni j0) as [|m rest] eqn:Eq.
+  { eexists. split; [reflexivity|]. split; [apply cwf_tick; exact H|auto]. }
+  assert (Hij : i0 <> j0).
+  { intros ->. rewrite Ej in Ei. inversion Ei; subst ni. rewrite (self_queue_empty c j0 nj H Ej) in Eq. discriminate. }
+  eexists. split; [reflexivity|].
+  set (c1 := set_node c i0 (set_out ni (aset j0 rest (cn_out ni)))).
+  assert (Ej1 : aget j0 (c_nodes c1) = Some nj).
+  { unfold c1. rewrite nodes_set. destruct (Z.eqb_spec j0 i0); [congruence|exact Ej]. }
+  rewrite <- (set_node_id c1 j0 nj Ej1).
+  destruct (pop_cluster c i0 j0 ni nj m rest (cn_ctx nj) false 0 STOPPED true 0 H Hij Ei Ej Eq) as [W P]; auto.
+  - apply (nw_ctx _ _ _ (H j0 nj Ej)).
+  - discriminate.
+  - split; [exact W|]. intros HP Hh. apply P; [|exact HP].
+    intros _ k st e nm -> tr Htr. unfold harmful in Hh. rewrite Ei, Ej, Eq in Hh. simpl in Hh.
+    rewrite Htr in Hh. exact Hh.
+Qed.
+
+(* ---------- Deliver ---------- *)
+Lemma step_deliver : forall c i0 j0, cwf c ->
+  exists c', cstep c (Deliver i0 j0) = Ok c' /\ cwf c' /\ (cpinv c -> harmful c (Deliver i0 j0) = false -> cpinv c').
+Proof.
+  intros c i0 j0 H. unfold cstep; cbv zeta.
+  destruct (aget i0 (c_nodes c)) as [ni|] eqn:Ei.
+  2:{ eexists. split; [reflexivity|]. split; [apply cwf_tick; exact H|auto]. }
+  destruct (aget j0 (c_nodes c)) as [nj|] eqn:Ej.
+  2:{ eexists. split; [reflexivity|]. split; [apply cwf_tick; exact H|auto]. }
+  destruct (out_queue ni j0) as [|m rest] eqn:Eq.
+  { eexists. split; [reflexivity|]. split; [apply cwf_tick; exact H|auto]. }
+  assert (Hij : i0 <> j0).
+  { intros ->. rewrite Ej in Ei. inversion Ei; subst ni. rewrite (self_queue_empty c j0 nj H Ej) in Eq. discriminate. }
+  set (c1 := set_node c i0 (set_out ni (aset j0 rest (cn_out ni)))).
+  assert (Ej1 : aget j0 (c_nodes c1) = Some nj).
+  { unfold c1. rewrite nodes_set. destruct (Z.eqb_spec j0 i0); [congruence|exact Ej]. }
+  pose proof (nw_ctx _ _ _ (H j0 nj Ej)) as Aj.
+  (* the cases where j0's Context is not touched *)
+  assert (Hidle : forall (Hh : harmful c (Deliver i0 j0) = false ->
+                    forall k st e nm, m = MEvent k st e nm ->
+                    forall tr, aget k (cn_truth ni) = Some tr -> loss_harmful nj i0 k tr rest = false),
+            cwf (tick_clock c1) /\ (cpinv c -> harmful c (Deliver i0 j0) = false -> cpinv (tick_clock c1))).
+  { intros Hh. rewrite <- (set_node_id c1 j0 nj Ej1).
+    destruct (pop_cluster c i0 j0 ni nj m rest (cn_ctx nj) false 0 STOPPED true 0 H Hij Ei Ej Eq) as [W P]; auto.
+    - discriminate.
+    - split; [exact W|]. intros HP Hf. apply P; [|exact HP]. intros _. apply Hh. exact Hf. }
+  destruct m as [k st e nm|tbl nm|ok ts].
+  2:{ eexists. split; [reflexivity|]. apply Hidle. intros _ k st e nm0 Hm. discriminate. }
+  2:{ eexists. split; [reflexivity|]. apply Hidle. intros _ k st e nm0 Hm. discriminate. }
+  destruct (sender_active ni j0) eqn:Esa.
+  2:{ eexists. split; [reflexivity|]. apply Hidle.
+      intros Hf k' st' e' nm' Hm tr Htr. inversion Hm; subst k' st' e' nm'.
+      unfold harmful in Hf. rewrite Ei, Ej, Eq, Esa in Hf. simpl in Hf. rewrite Htr in Hf. exact Hf. }
+  destruct (rstep_proc_event (cn_ctx nj) i0 k st e nm (c_now c) Aj) as [ctx' [E [Hr [Hadm [Hme [Hsame Hv]]]]]].
+  rewrite E. cbn [bind]. eexists. split; [reflexivity|].
+  destruct (pop_cluster c i0 j0 ni nj (MEvent k st e nm) rest ctx' (applies (cn_ctx nj) i0 k) k st e nm
+              H Hij Ei Ej Eq Hr Hadm Hv) as [W P].
+  - intros Ha. split; [reflexivity|]. unfold applies in Ha.
+    destruct (valid_state (cn_ctx nj) i0) as [s|] eqn:Evs; [|discriminate].
+    apply andb_true_iff in Ha. destruct Ha as [Ha _].
+    exists s. split; [apply (valid_state_some _ _ _ Evs)|exact Ha].
+  - split; [exact W|]. intros HP Hf. apply P; [|exact HP].
+    intros Hna k' st' e' nm' Hm tr Htr. inversion Hm; subst k' st' e' nm'.
+    unfold harmful in Hf. rewrite Ei, Ej, Eq, Esa in Hf.
+    change (would_apply nj i0 k) with (applies (cn_ctx nj) i0 k) in Hf. rewrite Hna in Hf. simpl in Hf.
+    rewrite Htr in Hf. exact Hf.
+Qed.
+
+(* ---------- LocalChange ---------- *)
+Lemma aget_map_val : forall {V W} (f : Z -> V -> W) (l : alist V) j,
+  aget j (map (fun jq => (fst jq, f (fst jq) (snd jq))) l) = match aget j l with Some q => Some (f j q) | None => None end.
+Proof.
+  intros V W f l j. induction l as [|[j' q] r IH]; simpl; [reflexivity|].
+  destruct (Z.eqb_spec j j'); [subst; reflexivity|exact IH].
+Qed.
+
+Lemma aget_aset_eq : forall {V} (l : alist V) k v k',
+  aget k' (aset k v l) = if Z.eqb k' k then Some v else aget k' l.
+Proof.
+  intros V l k v k'. destruct (Z.eqb_spec k' k); [subst; apply aget_aset_same|apply aget_aset_other; assumption].
+Qed.
+
+Lemma pinv_push_remote : forall nj ni ni' j i k st e nm,
+  pinv nj ni j i ->
+  cn_truth ni' = aset k (st, e) (cn_truth ni) ->
+  out_queue ni' j = (match adm (cn_ctx ni) j with
+                     | Some Node.ISOLATED => out_queue ni j
+                     | _ => out_queue ni j ++ [MEvent k st e nm] end) ->
+  adm (cn_ctx ni') j = adm (cn_ctx ni) j ->
+  (adm (cn_ctx ni) j = Some ISOLATED -> loss_harmful nj i k (st, e) (out_queue ni j) = false) ->
+  pinv nj ni' j i.
+Proof.
+  intros nj ni ni' j i k st e nm [CI PI] Ht Hq Ha Hl. split.
+  - intros Hiso k' t Hle. rewrite Ha in Hiso. rewrite Ht, aget_aset_eq.
+    assert (Hq2 : out_queue ni' j = out_queue ni j ++ [MEvent k st e nm]).
+    { rewrite Hq. destruct (adm (cn_ctx ni) j) as [[]|]; try reflexivity. contradiction. }
+    rewrite Hq2, last_ev_app_ev in Hle. rewrite (Z.eqb_sym k' k).
+    destruct (Z.eqb k k'); [exact Hle|]. apply CI; assumption.
+  - intros k' b t Hb Hk. rewrite Ht, aget_aset_eq in Hk. rewrite Hq.
+    destruct (Z.eqb_spec k' k) as [Ek|Ek].
+    + subst k'. inversion Hk; subst t.
+      assert (Hnon : final k (out_queue ni j ++ [MEvent k st e nm]) b = Some (st, e)).
+      { unfold final. rewrite last_ev_app_ev, Z.eqb_refl. reflexivity. }
+      destruct (adm (cn_ctx ni) j) as [[]|] eqn:Ea; try exact Hnon.
+      apply (loss_harmless nj i k (st, e) _ b (Hl eq_refl) Hb).
+    + assert (Hnon : final k' (out_queue ni j ++ [MEvent k st e nm]) b = Some t).
+      { unfold final. rewrite last_ev_app_ev. destruct (Z.eqb_spec k k'); [congruence|]. apply (PI k' b t Hb Hk). }
+      destruct (adm (cn_ctx ni) j) as [[]|] eqn:Ea; try exact Hnon.
+      apply (PI k' b t Hb Hk).
+Qed.
+
+Lemma pinv_push_local : forall n n' i k st e (applied : bool),
+  pinv n n i i -> out_queue n i = [] -> out_queue n' i = [] ->
+  cn_truth n' = aset k (st, e) (cn_truth n) ->
+  (forall y, adm (cn_ctx n') y = adm (cn_ctx n) y) -> (forall y, chk (cn_ctx n') y = chk (cn_ctx n) y) ->
+  cn_ntf n' = cn_ntf n ->
+  (forall k', rvinfo (cn_ctx n') k' i = if applied && Z.eqb k' k then Some (st, e) else rvinfo (cn_ctx n) k' i) ->
+  (applied = true -> exists s, adm (cn_ctx n) i = Some s /\ admitted s = true) ->
+  (applied = false -> loss_harmful n i k (st, e) [] = false) ->
+  pinv n' n' i i.
+Proof.
+  intros n n' i k st e applied [CI PI] Hq Hq' Ht Ha Hc Hn Hv Happ Hloss. split.
+  - intros _ k' t Hl. rewrite Hq' in Hl. discriminate.
+  - intros k' b t Hb Hk. rewrite Hq'. unfold final. simpl. rewrite Ht, aget_aset_eq in Hk.
+    destruct applied.
+    + destruct (Happ eq_refl) as [s [Es Hs]].
+      assert (Hwb' : window_base n' i k' = Some (rvinfo (cn_ctx n') k' i)).
+      { unfold window_base. rewrite Ha, Es. destruct s; simpl in Hs; try discriminate; reflexivity. }
+      rewrite Hwb' in Hb. inversion Hb; subst b. clear Hb. rewrite Hv. simpl andb.
+      destruct (Z.eqb_spec k' k) as [Ek|Ek]; [exact Hk|].
+      assert (Hwb : window_base n i k' = Some (rvinfo (cn_ctx n) k' i)).
+      { unfold window_base. rewrite Es. destruct s; simpl in Hs; try discriminate; reflexivity. }
+      pose proof (PI k' _ t Hwb Hk) as P. rewrite Hq in P. exact P.
+    + assert (Hwb : window_base n i k' = Some b).
+      { rewrite <- Hb. symmetry. apply window_base_frame; auto. rewrite Hv. reflexivity. }
+      destruct (Z.eqb_spec k' k) as [Ek|Ek].
+      * subst k'. inversion Hk; subst t.
+        pose proof (loss_harmless n i k (st, e) [] b (Hloss eq_refl) Hwb) as P. exact P.
+      * pose proof (PI k' b t Hwb Hk) as P. rewrite Hq in P. exact P.
+Qed.
+
+Lemma existsb_false : forall {A} (f : A -> bool) l, existsb f l = false -> forall x, In x l -> f x = false.
+Proof.
+  intros A f l H x Hx. destruct (f x) eqn:E; [|reflexivity].
+  assert (existsb f l = true) by (apply existsb_exists; exists x; auto). congruence.
+Qed.
+
+Lemma step_local_change : forall c i0 k st e, cwf c ->
+  exists c', cstep c (LocalChange i0 k st e) = Ok c' /\ cwf c'
+    /\ (cpinv c -> harmful c (LocalChange i0 k st e) = false -> cpinv c').
+Proof.
+  intros c i0 k st e H. unfold cstep; cbv zeta.
+  destruct (aget i0 (c_nodes c)) as [n|] eqn:Ei.
+  2:{ eexists. split; [reflexivity|]. split; [apply cwf_tick; exact H|auto]. }
+  destruct (amem k (cn_truth n)) eqn:Ek.
+  2:{ eexists. split; [reflexivity|]. split; [apply cwf_tick; exact H|auto]. }
+  destruct (H i0 n Ei) as [A B C D F G].
+  destruct (rstep_proc_event (cn_ctx n) i0 k st e (c_now c) (c_now c) A) as [ctx' [E [Hr [Hadm [Hme [Hsame Hv]]]]]].
+  rewrite E. cbn [bind].
+  set (n1 := set_ctx (set_truth n (aset k (st, e) (cn_truth n))) ctx').
+  set (ev := MEvent k st e (c_now c)).
+  set (n2 := set_out n1 (enqueue_pub n1 ev)).
+  assert (Ha : forall y, adm ctx' y = adm (cn_ctx n) y) by (intros; unfold adm; rewrite Hadm; reflexivity).
+  assert (Hc : forall y, chk ctx' y = chk (cn_ctx n) y) by (intros; unfold chk; rewrite Hadm; reflexivity).
+  assert (Hout : forall j, aget j (cn_out n2) =
+            match aget j (cn_out n) with
+            | Some q => Some (match adm (cn_ctx n) j with Some Node.ISOLATED => q | _ => q ++ [ev] end)
+            | None => None end).
+  { intros j. unfold n2. cbn [set_out cn_out]. unfold enqueue_pub.
+    rewrite (aget_map_val (fun j q => match adm (cn_ctx n1) j with Some Node.ISOLATED => q | _ => q ++ [ev] end)).
+    unfold n1. cbn [set_ctx set_truth cn_ctx cn_out]. destruct (aget j (cn_out n)); [|reflexivity]. rewrite Ha. reflexivity. }
+  assert (Hoq : forall j, j <> i0 -> isnode c j ->
+            out_queue n2 j = match adm (cn_ctx n) j with
+                             | Some Node.ISOLATED => out_queue n j | _ => out_queue n j ++ [ev] end).
+  { intros j Hj Hn. destruct (D j Hj Hn) as [q Eq]. unfold out_queue. rewrite Hout, Eq. reflexivity. }
+  assert (Hself : out_queue n2 i0 = []) by (unfold out_queue; rewrite Hout, C; reflexivity).
+  eexists. split; [reflexivity|]. fold n1. fold ev. fold n2. split.
+  - change (tick_clock (set_node c i0 n2)) with (set_node (tick_clock c) i0 n2).
+    apply (cwf_set (tick_clock c) i0 n); auto.
+    + apply cwf_tick. exact H.
+    + unfold n2, n1. cbn [set_out set_ctx set_truth cn_truth]. apply NoDup_akeys_aset. exact B.
+    + rewrite Hout, C. reflexivity.
+    + intros j q Hq. rewrite Hout, Hq. eauto.
+    + intros i' ok ts Hi. cbn [tick_clock c_now]. pose proof (F i' ok ts Hi). lia.
+    + intros i'. cbn [tick_clock c_now]. unfold n2, n1. cbn [set_out set_ctx cn_ctx]. rewrite Hc. pose proof (G i'). lia.
+  - intros HP Hh. apply cpinv_tick.
+    unfold harmful in Hh. rewrite Ei, Ek in Hh. apply orb_false_iff in Hh. destruct Hh as [Hh1 Hh2].
+    change (would_apply n i0 k) with (applies (cn_ctx n) i0 k) in Hh1.
+    intros j i nj2 ni2 Hj Hi. rewrite nodes_set in Hj, Hi.
+    destruct (Z.eqb_spec i i0) as [Eii|Eii].
+    + subst i. inversion Hi; subst ni2. clear Hi.
+      destruct (Z.eqb_spec j i0) as [Ejj|Ejj].
+      * (* the local Context *)
+        subst j. inversion Hj; subst nj2. clear Hj.
+        apply (pinv_push_local n n2 i0 k st e (applies (cn_ctx n) i0 k) (HP i0 i0 n n Ei Ei)).
+        -- apply (self_queue_empty c i0 n H Ei).
+        -- exact Hself.
+        -- reflexivity.
+        -- intros y. unfold n2, n1. cbn [set_out set_ctx cn_ctx]. apply Ha.
+        -- intros y. unfold n2, n1. cbn [set_out set_ctx cn_ctx]. apply Hc.
+        -- reflexivity.
+        -- intros k'. unfold n2, n1. cbn [set_out set_ctx cn_ctx]. rewrite Hv, Z.eqb_refl, andb_true_r. reflexivity.
+        -- intros Hap. unfold applies in Hap. destruct (valid_state (cn_ctx n) i0) as [s|] eqn:Evs; [|discriminate].
+           apply andb_true_iff in Hap. destruct Hap as [Hap _].
+           exists s. split; [apply (valid_state_some _ _ _ Evs)|exact Hap].
+        -- intros Hap. rewrite Hap in Hh1. simpl in Hh1. exact Hh1.
+      * (* a remote Context *)
+        assert (Hnj : isnode c j) by (exists nj2; exact Hj).
+        apply (pinv_push_remote nj2 n n2 j i0 k st e (c_now c) (HP j i0 nj2 n Hj Ei)).
+        -- reflexivity.
+        -- apply (Hoq j Ejj Hnj).
+        -- unfold n2, n1. cbn [set_out set_ctx cn_ctx]. apply Ha.
+        -- intros Hiso.
+           assert (Hin : In (j, nj2) (c_nodes c)) by (apply aget_In; exact Hj).
+           pose proof (existsb_false _ _ Hh2 (j, nj2) Hin) as Hh3. cbn [fst snd] in Hh3. clear Hh2. rename Hh3 into Hh2.
+           rewrite Hiso in Hh2. destruct (Z.eqb_spec j i0); [contradiction|]. simpl in Hh2. exact Hh2.
+    + destruct (Z.eqb_spec j i0) as [Ejj|Ejj].
+      * subst j. inversion Hj; subst nj2. clear Hj.
+        apply (pinv_frame n ni2 n2 ni2 i0 i (HP i0 i n ni2 Ei Hi)); [reflexivity|reflexivity|auto|].
+        intros k' b Hb. rewrite <- Hb. symmetry. apply window_base_frame.
+        -- unfold n2, n1. cbn [set_out set_ctx cn_ctx]. apply Ha.
+        -- unfold n2, n1. cbn [set_out set_ctx cn_ctx]. apply Hc.
+        -- reflexivity.
+        -- unfold n2, n1. cbn [set_out set_ctx cn_ctx]. rewrite Hv.
+           destruct (Z.eqb_spec i i0); [contradiction|]. rewrite andb_false_r. reflexivity.
+      * apply (HP j i nj2 ni2 Hj Hi).
+Qed.
+
+(* ---------- every action ---------- *)
+Lemma cstep_inv : forall c a, cwf c ->
+  exists c', cstep c a = Ok c' /\ cwf c' /\ (cpinv c -> harmful c a = false -> cpinv c').
+Proof.
+  intros c a H. destruct a as [i k st e|i j|i j|i j|j i|j|j|j i|j iso].
+  - apply step_local_change. exact H.
+  - apply step_deliver. exact H.
+  - apply step_drop. exact H.
+  - destruct (step_tick_from c i j H) as [c' [E [W P]]]. exists c'. auto.
+  - destruct (step_snapshot_read c j i H) as [c' [E [W P]]]. exists c'. auto.
+  - destruct (step_notify c j H) as [c' [E [W P]]]. exists c'. auto.
+  - destruct (step_activate c j H) as [c' [E [W P]]]. exists c'. auto.
+  - destruct (step_fail c j i H) as [c' [E [W P]]]. exists c'. auto.
+  - destruct (step_invalidate c j iso H) as [c' [E [W P]]]. exists c'. auto.
+Qed.
+
+(* no schedule makes a well-formed cluster raise *)
+Theorem cluster_no_crash : forall tr c, cwf c -> exists c', crun c tr = Ok c' /\ cwf c'.
+Proof.
+  induction tr as [|a r IH]; intros c H; simpl.
+  - exists c. auto.
+  - destruct (cstep_inv c a H) as [c1 [E [W _]]]. rewrite E. simpl. apply IH. exact W.
+Qed.
+
+Lemma clean_inv : forall tr c c', cwf c -> cpinv c -> clean c tr = true -> crun c tr = Ok c' -> cwf c' /\ cpinv c'.
+Proof.
+  induction tr as [|a r IH]; intros c c' H HP Hc Hr; simpl in *.
+  - inversion Hr; subst. auto.
+  - apply andb_true_iff in Hc. destruct Hc as [Hh Hc]. apply negb_true_iff in Hh.
+    destruct (cstep_inv c a H) as [c1 [E [W P]]]. rewrite E in Hc, Hr. simpl in Hr.
+    apply (IH c1 c' W (P HP Hh) Hc Hr).
+Qed.
+
+(* ---------- the initial cluster ---------- *)
+Lemma aget_map_key : forall {V W} (f : Z -> V -> W) (l : alist V) j,
+  aget j (map (fun kv => (fst kv, f (fst kv) (snd kv))) l) = match aget j l with Some v => Some (f j v) | None => None end.
+Proof. intros. apply aget_map_val. Qed.
+
+Lemma aget_const_map : forall {W} (w : W) (l : list Z) j,
+  aget j (map (fun x => (x, w)) l) = if zmem j l then Some w else None.
+Proof.
+  intros W w l j. induction l as [|x r IH]; simpl; [reflexivity|].
+  destruct (Z.eqb j x); [reflexivity|exact IH].
+Qed.
+
+Lemma cinit_node : forall truths i n, aget i (c_nodes (cinit truths)) = Some n ->
+  exists t, aget i truths = Some t /\ n = node_init (akeys truths) i t.
+Proof.
+  intros truths i n H. unfold cinit in H. cbn [c_nodes] in H.
+  rewrite (aget_map_key (fun i t => node_init (akeys truths) i t)) in H.
+  destruct (aget i truths) as [t|]; [|discriminate]. inversion H. eauto.
+Qed.
+
+Lemma cinit_inv : forall truths, (forall i t, aget i truths = Some t -> NoDup (akeys t)) ->
+  cwf (cinit truths) /\ cpinv (cinit truths).
+Proof.
+  intros truths Ht. split.
+  - intros i n E. destruct (cinit_node truths i n E) as [t [Et ->]]. constructor.
+    + apply rinit_rwf.
+    + apply (Ht i t Et).
+    + unfold node_init. cbn [cn_out]. rewrite aget_const_map.
+      destruct (zmem i (filter (fun j => negb (Z.eqb j i)) (akeys truths))) eqn:Ez; [|reflexivity].
+      apply zmem_In in Ez. apply filter_In in Ez. destruct Ez as [_ Ez]. rewrite Z.eqb_refl in Ez. discriminate.
+    + intros j Hj [nj Hn]. destruct (cinit_node truths j nj Hn) as [tj [Etj _]].
+      unfold node_init. cbn [cn_out]. rewrite aget_const_map.
+      assert (Hz : zmem j (filter (fun j0 => negb (Z.eqb j0 i)) (akeys truths)) = true).
+      { apply zmem_In. apply filter_In. split.
+        - apply aget_In in Etj. unfold akeys. apply in_map_iff. exists (j, tj). auto.
+        - destruct (Z.eqb_spec j i); [contradiction|reflexivity]. }
+      rewrite Hz. eauto.
+    + intros i' ok ts [].
+    + intros i'. unfold node_init, rinit, chk. cbn [cn_ctx r_adm c_now cinit].
+      rewrite (aget_const_map (ISTOPPED, 0)). destruct (zmem i' (akeys truths)); simpl; lia.
+  - intros j i nj ni Ej Ei.
+    destruct (cinit_node truths j nj Ej) as [tj [_ ->]]. destruct (cinit_node truths i ni Ei) as [ti [_ ->]].
+    split.
+    + intros _ k t Hl. unfold node_init, out_queue in Hl. cbn [cn_out] in Hl. rewrite aget_const_map in Hl.
+      destruct (zmem j _); discriminate.
+    + intros k b t Hb. unfold window_base, node_init, rinit, adm in Hb. cbn [cn_ctx r_adm] in Hb.
+      rewrite (aget_const_map (ISTOPPED, 0)) in Hb. destruct (zmem i (akeys truths)); discriminate.
+Qed.
+
+(* ---------- agreement ---------- *)
+(* C12, information level. For EVERY schedule in which no process event is lost inside a handshake window
+   (`clean`), at every point of the schedule: whenever i's publication queue towards j is empty and j sees i
+   RUNNING, what j holds about every process of i is exactly what i's Supervisor reports (state and expected
+   flag). Quiescence of the whole cluster is a special case; pending handshakes elsewhere do not matter. *)
+Theorem agreement_partial : forall truths tr c,
+  (forall i t, aget i truths = Some t -> NoDup (akeys t)) ->
+  clean (cinit truths) tr = true -> crun (cinit truths) tr = Ok c ->
+  forall j i nj ni, aget j (c_nodes c) = Some nj -> aget i (c_nodes c) = Some ni ->
+    adm (cn_ctx nj) i = Some IRUNNING -> out_queue ni j = [] ->
+    forall k t, aget k (cn_truth ni) = Some t -> rvinfo (cn_ctx nj) k i = Some t.
+Proof.
+  intros truths tr c Ht Hc Hr j i nj ni Ej Ei Ha Hq k t Hk.
+  destruct (cinit_inv truths Ht) as [W0 P0].
+  destruct (clean_inv tr _ c W0 P0 Hc Hr) as [W P].
+  destruct (P j i nj ni Ej Ei) as [_ PI].
+  assert (Hb : window_base nj i k = Some (rvinfo (cn_ctx nj) k i)) by (unfold window_base; rewrite Ha; reflexivity).
+  pose proof (PI k _ t Hb Hk) as F. rewrite Hq in F. exact F.
+Qed.
+
+(* from the per-instance information to the running set (through the C11 refinement) *)
+Lemma wfp_membership : forall p i st e, wfp p -> pvinfo p i = Some (st, e) ->
+  (is_running_like st = true -> zmem i (p_running p) = true)
+  /\ (is_stopped_like st = true -> zmem i (p_running p) = false).
+Proof.
+  intros p i st e [sp HR] Hv. rewrite (pvinfo_R p sp i HR) in Hv. unfold svinfo in Hv.
+  destruct (aget i (sp_infos sp)) as [si|] eqn:Ei; [|discriminate]. inversion Hv; subst. clear Hv.
+  destruct HR as [HR _].
+  assert (Hok : listed_ok si).
+  { pose proof (rc_listed _ _ _ HR) as HF. rewrite Forall_forall in HF. apply (HF (i, si)). apply aget_In. exact Ei. }
+  destruct Hok as [O1 O2]. split.
+  - intros Hrl. apply (rc_run _ _ _ HR). exists si. auto.
+  - intros Hsl. destruct (zmem i (p_running p)) eqn:Ez; [|reflexivity].
+    apply (rc_run _ _ _ HR) in Ez. destruct Ez as [si' [E' L']]. rewrite Ei in E'. inversion E'; subst si'.
+    destruct (O1 L') as [X|X]; [destruct (s_state si); simpl in *; discriminate|rewrite X in Hsl; discriminate].
+Qed.
+
+(* C12 as the property words it: "the set of instances where it runs ... is exactly what the Supervisors of the
+   instances it sees RUNNING actually report", for the instances seen RUNNING. STOPPING is in neither of
+   Supervisor's RUNNING_STATES / STOPPED_STATES: membership is then left open (see stopping_membership_differs). *)
+Theorem running_agreement : forall truths tr c,
+  (forall i t, aget i truths = Some t -> NoDup (akeys t)) ->
+  clean (cinit truths) tr = true -> crun (cinit truths) tr = Ok c ->
+  forall j i nj ni, aget j (c_nodes c) = Some nj -> aget i (c_nodes c) = Some ni ->
+    adm (cn_ctx nj) i = Some IRUNNING -> out_queue ni j = [] ->
+    forall k st e, aget k (cn_truth ni) = Some (st, e) ->
+      exists p, aget k (r_procs (cn_ctx nj)) = Some p
+        /\ (is_running_like st = true -> zmem i (p_running p) = true)
+        /\ (is_stopped_like st = true -> zmem i (p_running p) = false).
+Proof.
+  intros truths tr c Ht Hc Hr j i nj ni Ej Ei Ha Hq k st e Hk.
+  pose proof (agreement_partial truths tr c Ht Hc Hr j i nj ni Ej Ei Ha Hq k (st, e) Hk) as Hv.
+  destruct (cinit_inv truths Ht) as [W0 P0].
+  destruct (clean_inv tr _ c W0 P0 Hc Hr) as [W _].
+  unfold rvinfo in Hv. destruct (aget k (r_procs (cn_ctx nj))) as [p|] eqn:Ep; [|discriminate].
+  exists p. split; [reflexivity|].
+  apply (wfp_membership p i st e); [|exact Hv].
+  apply (Fwfp_aget _ k p (nw_ctx _ _ _ (W j nj Ej)) Ep).
+Qed.
+
+(* two instances that both see i RUNNING, with nothing of i in flight towards them, agree on whether process k
+   runs on i (the stopped-like flavour held for i is even the same: both hold i's true state) *)
+Corollary pairwise_agreement : forall truths tr c,
+  (forall i t, aget i truths = Some t -> NoDup (akeys t)) ->
+  clean (cinit truths) tr = true -> crun (cinit truths) tr = Ok c ->
+  forall a b i na nb ni, aget a (c_nodes c) = Some na -> aget b (c_nodes c) = Some nb -> aget i (c_nodes c) = Some ni ->
+    adm (cn_ctx na) i = Some IRUNNING -> adm (cn_ctx nb) i = Some IRUNNING ->
+    out_queue ni a = [] -> out_queue ni b = [] ->
+    forall k st e, aget k (cn_truth ni) = Some (st, e) ->
+      rvinfo (cn_ctx na) k i = rvinfo (cn_ctx nb) k i
+      /\ (st <> STOPPING ->
+          exists pa pb, aget k (r_procs (cn_ctx na)) = Some pa /\ aget k (r_procs (cn_ctx nb)) = Some pb
+            /\ zmem i (p_running pa) = zmem i (p_running pb)).
+Proof.
+  intros truths tr c Ht Hc Hr a b i na nb ni Ea Eb Ei Haa Hab Hqa Hqb k st e Hk. split.
+  - rewrite (agreement_partial truths tr c Ht Hc Hr a i na ni Ea Ei Haa Hqa k _ Hk).
+    rewrite (agreement_partial truths tr c Ht Hc Hr b i nb ni Eb Ei Hab Hqb k _ Hk). reflexivity.
+  - intros Hns.
+    destruct (running_agreement truths tr c Ht Hc Hr a i na ni Ea Ei Haa Hqa k st e Hk) as [pa [Epa [A1 A2]]].
+    destruct (running_agreement truths tr c Ht Hc Hr b i nb ni Eb Ei Hab Hqb k st e Hk) as [pb [Epb [B1 B2]]].
+    exists pa, pb. split; [exact Epa|]. split; [exact Epb|].
+    destruct st; try (rewrite A1, B1 by reflexivity; reflexivity); try (rewrite A2, B2 by reflexivity; reflexivity).
+    contradiction.
+Qed.
+
+(* ====================================================================== *)
+(* D. one Context: no crash, and Spec_C13 (process plane) on every history   *)
+(* ====================================================================== *)
+Lemma rstep_total : forall c o, rwf c -> exists c', rstep c o = Ok c' /\ rwf c'.
+Proof.
+  intros c o H. destruct o as [j infos nm now|j inf nm now|j k st e nm now|j k tg st et now|j k|j k b|j rmt now
+                              |j ok ts now|j now|iso now|now].
+  - destruct (rstep_load_all c j infos nm now H) as [c' [E [W _]]]. eauto.
+  - unfold rstep. destruct (valid_state c j); [|eauto].
+    destruct (load_infos_ok [inf] (r_procs c) j nm now H) as [ps [E [W _]]]. rewrite E. simpl. eauto.
+  - destruct (rstep_proc_event c j k st e nm now H) as [c' [E [W _]]]. eauto.
+  - unfold rstep. destruct (valid_state c j) as [s|]; [|eauto]. destruct (admitted s); [|eauto].
+    destruct (aget k (r_procs c)) as [p|] eqn:Ek; [|eauto].
+    eexists. split; [reflexivity|]. apply Fwfp_aset; [exact H|].
+    apply wfp_force. eapply Fwfp_aget; eassumption.
+  - unfold rstep. destruct (valid_state c j) as [s|]; [|eauto]. destruct (admitted s); [|eauto].
+    destruct (aget k (r_procs c)) as [p|] eqn:Ek; [|eauto].
+    destruct (amem j (p_infos p)) eqn:Em; [|eauto].
+    destruct (wfp_remove p j (Fwfp_aget _ _ _ H Ek) Em) as [p' [E [W _]]]. rewrite E. simpl.
+    eexists. split; [reflexivity|]. unfold rwf. cbn [set_procs r_procs].
+    destruct (p_infos p'); [apply Forall_adel; exact H|apply Fwfp_aset; assumption].
+  - unfold rstep. destruct (valid_state c j) as [s|]; [|eauto]. destruct (admitted s); [|eauto].
+    destruct (aget k (r_procs c)) as [p|] eqn:Ek; [|eauto].
+    destruct (amem j (p_infos p)) eqn:Em; [|eauto].
+    destruct (wfp_disable p j b (Fwfp_aget _ _ _ H Ek)) as [p' [E [W _]]]. rewrite E. simpl.
+    eexists. split; [reflexivity|]. apply Fwfp_aset; assumption.
+  - destruct (rstep_tick c j rmt now H) as [c' [E [W _]]]. eauto.
+  - destruct (rstep_auth c j ok ts now) as [c' [E [Hp _]]]. exists c'. split; [exact E|]. unfold rwf. rewrite Hp. exact H.
+  - destruct (rstep_failure c j now) as [c' [E [Hp _]]]. exists c'. split; [exact E|]. unfold rwf. rewrite Hp. exact H.
+  - destruct (rstep_invalidate_failed c iso now H) as [c' [E [W _]]]. eauto.
+  - destruct (rstep_activate c now) as [c' [E [Hp _]]]. exists c'. split; [exact E|]. unfold rwf. rewrite Hp. exact H.
+Qed.
+
+Theorem receiver_no_crash : forall ops me peers, exists c, rrun_state (rinit me peers) ops = Ok c /\ rwf c.
+Proof.
+  intros ops me peers. generalize (rinit_rwf me peers). generalize (rinit me peers).
+  induction ops as [|o r IH]; intros c H; simpl.
+  - eauto.
+  - destruct (rstep_total c o H) as [c' [E W]]. rewrite E. simpl. apply IH. exact W.
+Qed.
+
+Lemma list_eqb_refl : forall {A} (eqb : A -> A -> bool) l, (forall x, eqb x x = true) -> list_eqb eqb l l = true.
+Proof. intros A eqb l H. induction l as [|x r IH]; simpl; [reflexivity|]. rewrite H, IH. reflexivity. Qed.
+
+Lemma pobs_eqb_refl : forall o, pobs_eqb o o = true.
+Proof.
+  intros [[[[[[r c] s] d] e] f] l]. simpl.
+  rewrite (list_eqb_refl Z.eqb r Z.eqb_refl), !Bool.eqb_reflx, !Z.eqb_refl. simpl.
+  apply list_eqb_refl. intros [[[[[i1 s1] e1] h1] d1] t1]. simpl.
+  rewrite !Z.eqb_refl, !Bool.eqb_reflx. reflexivity.
+Qed.
+
+Lemma robs_eqb_refl : forall o, robs_eqb o o = true.
+Proof.
+  intros [a p]. unfold robs_eqb. simpl. rewrite list_eqb_refl, list_eqb_refl; [reflexivity| |].
+  - intros [k o]. unfold kp_eqb. simpl. rewrite Z.eqb_refl, pobs_eqb_refl. reflexivity.
+  - intros [x y]. unfold zz_eqb. simpl. rewrite !Z.eqb_refl. reflexivity.
+Qed.
+
+Lemma obs_state_robserve : forall c j,
+  obs_state (robserve c) j = match adm c j with Some s => Some (Node.icode s) | None => None end.
+Proof.
+  intros c j. unfold obs_state, robserve, adm. cbn [fst].
+  induction (r_adm c) as [|[j' [s ct]] r IH]; simpl; [reflexivity|].
+  rewrite (Z.eqb_sym j' j). destruct (Z.eqb j j'); [reflexivity|exact IH].
+Qed.
+
+Lemma icode_isolated : forall s, Z.eqb (Node.icode s) (Node.icode ISOLATED) = true -> s = ISOLATED.
+Proof. destruct s; vm_compute; intros H; try discriminate; reflexivity. Qed.
+
+Lemma code_admitted_spec : forall s, code_admitted (Node.icode s) = admitted s.
+Proof. destruct s; vm_compute; reflexivity. Qed.
+
+Lemma inert_ok : forall c o, must_be_inert (robserve c) o = true -> rstep c o = Ok c.
+Proof.
+  intros c o H. unfold must_be_inert in H. destruct (rop_origin o) as [j|] eqn:Eo; [|discriminate].
+  rewrite obs_state_robserve in H. destruct (adm c j) as [s|] eqn:Ea.
+  - apply orb_true_iff in H. destruct H as [H|H].
+    + apply icode_isolated in H. subst s. apply (isolated_peer_noninterference_procs c o j Eo). left. exact Ea.
+    + apply andb_true_iff in H. destruct H as [Hg Hn]. rewrite code_admitted_spec in Hn.
+      apply (events_only_from_admitted c o j Hg Eo). intros s' Es'. rewrite Ea in Es'. inversion Es'; subst s'.
+      apply negb_true_iff in Hn. exact Hn.
+  - apply (isolated_peer_noninterference_procs c o j Eo). right. exact Ea.
+Qed.
+
+(* the model of one Context satisfies Spec_C13 (process plane) on every history, from every well-formed state *)
+Theorem receiver_refines_spec_gen : forall ops c, rwf c -> rspec_violated (robserve c) ops (rrun c ops) = false.
+Proof.
+  induction ops as [|o r IH]; intros c H; simpl; [reflexivity|].
+  destruct (rstep_total c o H) as [c' [E W]]. rewrite E.
+  destruct (must_be_inert (robserve c) o) eqn:Ei.
+  - rewrite (inert_ok c o Ei) in E. inversion E; subst c'. rewrite robs_eqb_refl. simpl. apply IH. exact W.
+  - simpl. apply IH. exact W.
+Qed.
+
+Theorem receiver_refines_spec : forall me peers ops,
+  rspec_violated (robserve (rinit me peers)) ops (rrun (rinit me peers) ops) = false.
+Proof. intros. apply receiver_refines_spec_gen. apply rinit_rwf. Qed.
+
+(* ====================================================================== *)
+(* F. the handshake window (DESIGN §6 F13)                                  *)
+(* ====================================================================== *)
+Definition handshake_self (i : Z) : list action := [TickFrom i i; SnapshotRead i i; Notify i; Notify i; ActivateAt i].
+(* j admits i: i's TICK reaches j, j's proxy reads i, j handles ALL_INFO and AUTHORIZATION, then activates *)
+Definition handshake (j i : Z) : list action := [TickFrom i j; SnapshotRead j i; Notify j; Notify j; ActivateAt j].
+
+Definition w_truths : alist (alist tinfo) := [(1, []); (2, [(7, (RUNNING, true))])].
+
+(* receiver side: the event reaches 1 after 1's proxy has read 2's processes and before 1 handles AUTHORIZATION *)
+Definition w_receiver : list action :=
+  handshake_self 1 ++ handshake_self 2 ++ handshake 2 1 ++
+  [ TickFrom 2 1; SnapshotRead 1 2; LocalChange 2 7 STOPPED true; Deliver 2 1; Notify 1; Notify 1; ActivateAt 1 ].
+
+(* sender side: 2 does not regard 1 as active yet when its proxy handles the event (publish drops it) *)
+Definition w_sender : list action :=
+  handshake_self 1 ++ handshake_self 2 ++
+  [ TickFrom 2 1; SnapshotRead 1 2; LocalChange 2 7 STOPPED true; Deliver 2 1; Notify 1; Notify 1; ActivateAt 1 ]
+  ++ handshake 2 1.
+
+(* one instance alone: a local process event between the local snapshot and the local AUTHORIZATION *)
+Definition w_local_truths : alist (alist tinfo) := [(1, [(7, (STOPPED, true))])].
+Definition w_local : list action :=
+  [ TickFrom 1 1; SnapshotRead 1 1; LocalChange 1 7 STARTING true; Notify 1; Notify 1; ActivateAt 1 ].
+
+Definition final_of (truths : alist (alist tinfo)) (tr : list action) : cluster :=
+  match crun (cinit truths) tr with Ok c => c | Crash _ => cinit truths end.
+
+Definition view_of (c : cluster) (j k i : Z) : option tinfo :=
+  match aget j (c_nodes c) with Some nj => rvinfo (cn_ctx nj) k i | None => None end.
+Definition truth_of (c : cluster) (i k : Z) : option tinfo :=
+  match aget i (c_nodes c) with Some ni => aget k (cn_truth ni) | None => None end.
+Definition running_at (c : cluster) (j k : Z) : list Z :=
+  match aget j (c_nodes c) with
+  | Some nj => match aget k (r_procs (cn_ctx nj)) with Some p => p_running p | None => [] end
+  | None => []
+  end.
+Definition sees (c : cluster) (j i : Z) : option istate :=
+  match aget j (c_nodes c) with Some nj => adm (cn_ctx nj) i | None => None end.
+
+(* The full-strength statement (agreement without the `clean` hypothesis) is FALSE of the model: a schedule that
+   ends with every queue empty and no handshake in progress, where instance 1 sees instance 2 RUNNING and
+   reports process 7 as RUNNING on 2, while 2's Supervisor reports it STOPPED. *)
+Theorem handshake_window_refuted :
+  exists truths tr c, crun (cinit truths) tr = Ok c /\ quiescent c = true
+    /\ view_true c = false /\ running_true c = false
+    /\ sees c 1 2 = Some IRUNNING
+    /\ view_of c 1 7 2 = Some (RUNNING, true) /\ truth_of c 2 7 = Some (STOPPED, true)
+    /\ running_at c 1 7 = [2] /\ running_at c 2 7 = [].
+Proof. exists w_truths, w_receiver. eexists. vm_compute. repeat split; reflexivity. Qed.
+
+Theorem handshake_window_sender_refuted :
+  exists truths tr c, crun (cinit truths) tr = Ok c /\ quiescent c = true
+    /\ view_true c = false /\ running_true c = false
+    /\ sees c 1 2 = Some IRUNNING /\ sees c 2 1 = Some IRUNNING
+    /\ view_of c 1 7 2 = Some (RUNNING, true) /\ truth_of c 2 7 = Some (STOPPED, true).
+Proof. exists w_truths, w_sender. eexists. vm_compute. repeat split; reflexivity. Qed.
+
+Theorem handshake_window_local_refuted :
+  exists truths tr c, crun (cinit truths) tr = Ok c /\ quiescent c = true
+    /\ view_true c = false /\ running_true c = false
+    /\ sees c 1 1 = Some IRUNNING
+    /\ view_of c 1 7 1 = Some (STOPPED, true) /\ truth_of c 1 7 = Some (STARTING, true)
+    /\ running_at c 1 7 = [].
+Proof. exists w_local_truths, w_local. eexists. vm_compute. repeat split; reflexivity. Qed.
+
+(* the three schedules are exactly outside the hypothesis of agreement_partial *)
+Example witnesses_not_clean :
+  clean (cinit w_truths) w_receiver = false /\ clean (cinit w_truths) w_sender = false
+  /\ clean (cinit w_local_truths) w_local = false.
+Proof. vm_compute. repeat split; reflexivity. Qed.
+
+(* ... and the hypotheses of agreement_partial are satisfiable on a non-trivial schedule: the same story with the
+   process change after the handshake; every view is then true *)
+Definition w_clean : list action :=
+  handshake_self 1 ++ handshake_self 2 ++ handshake 2 1 ++ handshake 1 2 ++
+  [ LocalChange 2 7 STOPPING true; Deliver 2 1; LocalChange 2 7 STOPPED true; Deliver 2 1 ].
+
+Example agreement_hypotheses_satisfiable :
+  (forall i t, aget i w_truths = Some t -> NoDup (akeys t))
+  /\ clean (cinit w_truths) w_clean = true
+  /\ (let c := final_of w_truths w_clean in
+      quiescent c = true /\ view_true c = true /\ running_true c = true
+      /\ sees c 1 2 = Some IRUNNING /\ view_of c 1 7 2 = Some (STOPPED, true) /\ running_at c 1 7 = []).
+Proof.
+  split.
+  - intros i t H. unfold w_truths in H. simpl in H.
+    destruct (Z.eqb i 1); [inversion H; constructor|].
+    destruct (Z.eqb i 2); [inversion H; repeat constructor; intros []|discriminate].
+  - vm_compute. repeat split; reflexivity.
+Qed.
+
+(* Observation (not a handshake-window effect): while a process is STOPPING on i, an instance that admitted i
+   earlier lists i in the running set (it saw RUNNING then STOPPING), an instance that admits i now does not
+   (add_info of a STOPPING entry does not list it). Both hold the true state STOPPING and both synthesize
+   STOPPING; only `running_identifiers` differs. STOPPING is neither running nor stopped for Supervisor, and
+   Spec_C12 leaves it open. *)
+Definition w_stopping_truths : alist (alist tinfo) := [(1, []); (2, [(7, (RUNNING, true))]); (3, [])].
+Definition w_stopping : list action :=
+  handshake_self 1 ++ handshake_self 2 ++ handshake_self 3 ++ handshake 2 1 ++ handshake 1 2 ++ handshake 2 3 ++
+  [ LocalChange 2 7 STOPPING true; Deliver 2 1; Deliver 2 3 ] ++ handshake 3 2.
+
+Example stopping_membership_differs :
+  clean (cinit w_stopping_truths) w_stopping = true
+  /\ (let c := final_of w_stopping_truths w_stopping in
+      quiescent c = true /\ view_true c = true /\ running_true c = true
+      /\ view_of c 1 7 2 = Some (STOPPING, true) /\ view_of c 3 7 2 = Some (STOPPING, true)
+      /\ running_at c 1 7 = [2] /\ running_at c 3 7 = []).
+Proof. vm_compute. repeat split; reflexivity. Qed.
+
+(* ====================================================================== *)
+(* G. the boolean specification at quiescent points                         *)
+(* ====================================================================== *)
+Lemma akeys_aset_present : forall {V} (l : alist V) k v v', aget k l = Some v -> akeys (aset k v' l) = akeys l.
+Proof.
+  intros V l k v v'. induction l as [|[k' w] r IH]; simpl; intros H; [discriminate|].
+  destruct (Z.eqb k k'); simpl; [reflexivity|]. rewrite IH; auto.
+Qed.
+
+Lemma keys_set_node : forall c x n n', aget x (c_nodes c) = Some n ->
+  akeys (c_nodes (tick_clock (set_node c x n'))) = akeys (c_nodes c).
+Proof. intros c x n n' H. cbn [tick_clock set_node c_nodes]. apply (akeys_aset_present _ x n n' H). Qed.
+
+Lemma cstep_keys : forall c a c', cstep c a = Ok c' -> akeys (c_nodes c') = akeys (c_nodes c).
+Proof.
+  intros c a c' H. unfold cstep in H. cbv zeta in H.
+  destruct a as [i k st e|i j|i j|i j|j i|j|j|j i|j iso].
+  - destruct (aget i (c_nodes c)) as [n|] eqn:Ei; [|inversion H; reflexivity].
+    destruct (amem k (cn_truth n)); [|inversion H; reflexivity].
+    destruct (rstep (cn_ctx n) _) as [ctx'|]; simpl in H; [|discriminate]. inversion H. eapply keys_set_node; eassumption.
+  - destruct (aget i (c_nodes c)) as [ni|] eqn:Ei; [|inversion H; reflexivity].
+    destruct (aget j (c_nodes c)) as [nj|] eqn:Ej; [|inversion H; reflexivity].
+    destruct (out_queue ni j) as [|m rest]; [inversion H; reflexivity|].
+    assert (K1 : forall n', akeys (c_nodes (set_node c i n')) = akeys (c_nodes c)).
+    { intros n'. apply (akeys_aset_present _ i ni n' Ei). }
+    destruct m as [k st e nm| |]; try (inversion H; apply K1).
+    destruct (sender_active ni j); [|inversion H; apply K1].
+    destruct (rstep (cn_ctx nj) _) as [ctx'|]; simpl in H; [|discriminate]. inversion H.
+    cbn [tick_clock c_nodes]. unfold set_node at 1. cbn [c_nodes].
+    destruct (aget j (c_nodes (set_node c i (set_out ni (aset j rest (cn_out ni)))))) as [x|] eqn:Ex.
+    + rewrite (akeys_aset_present _ j x _ Ex). apply K1.
+    + exfalso. rewrite nodes_set in Ex. destruct (Z.eqb j i); [discriminate|congruence].
+  - destruct (aget i (c_nodes c)) as [ni|] eqn:Ei; [|inversion H; reflexivity].
+    destruct (aget j (c_nodes c)) as [nj|] eqn:Ej; [|inversion H; reflexivity].
+    destruct (out_queue ni j) as [|m rest]; inversion H; [reflexivity|]. eapply keys_set_node; eassumption.
+  - destruct (aget j (c_nodes c)) as [nj|] eqn:Ej; [|inversion H; reflexivity].
+    destruct (rstep (cn_ctx nj) _) as [ctx'|]; simpl in H; [|discriminate]. inversion H. eapply keys_set_node; eassumption.
+  - destruct (aget j (c_nodes c)) as [nj|] eqn:Ej; [|inversion H; reflexivity].
+    destruct (aget i (c_nodes c)) as [ni|] eqn:Ei; [|inversion H; reflexivity].
+    destruct (valid_state (cn_ctx nj) i); inversion H; [|reflexivity]. eapply keys_set_node; eassumption.
+  - destruct (aget j (c_nodes c)) as [nj|] eqn:Ej; [|inversion H; reflexivity].
+    destruct (cn_ntf nj) as [|[i m] rest]; [inversion H; reflexivity|].
+    destruct m as [k st e nm|tbl nm|ok ts].
+    + inversion H. eapply keys_set_node; eassumption.
+    + destruct (rstep (cn_ctx nj) _) as [ctx'|]; simpl in H; [|discriminate]. inversion H. eapply keys_set_node; eassumption.
+    + destruct (rstep (cn_ctx nj) _) as [ctx'|]; simpl in H; [|discriminate]. inversion H. eapply keys_set_node; eassumption.
+  - destruct (aget j (c_nodes c)) as [nj|] eqn:Ej; [|inversion H; reflexivity].
+    destruct (rstep (cn_ctx nj) _) as [ctx'|]; simpl in H; [|discriminate]. inversion H. eapply keys_set_node; eassumption.
+  - destruct (aget j (c_nodes c)) as [nj|] eqn:Ej; [|inversion H; reflexivity].
+    destruct (rstep (cn_ctx nj) _) as [ctx'|]; simpl in H; [|discriminate]. inversion H. eapply keys_set_node; eassumption.
+  - destruct (aget j (c_nodes c)) as [nj|] eqn:Ej; [|inversion H; reflexivity].
+    destruct (rstep (cn_ctx nj) _) as [ctx'|]; simpl in H; [|discriminate]. inversion H. eapply keys_set_node; eassumption.
+Qed.
+
+Lemma crun_keys : forall tr c c', crun c tr = Ok c' -> akeys (c_nodes c') = akeys (c_nodes c).
+Proof.
+  induction tr as [|a r IH]; intros c c' H; simpl in H.
+  - inversion H. reflexivity.
+  - destruct (cstep c a) as [c1|] eqn:E; simpl in H; [|discriminate].
+    rewrite (IH c1 c' H). apply (cstep_keys c a c1 E).
+Qed.
+
+Lemma cinit_keys : forall truths, akeys (c_nodes (cinit truths)) = akeys truths.
+Proof. intros truths. unfold cinit, akeys. cbn [c_nodes]. rewrite map_map. reflexivity. Qed.
+
+Lemma quiescent_out : forall c i ni j, In (i, ni) (c_nodes c) -> quiescent c = true -> out_queue ni j = [].
+Proof.
+  intros c i ni j Hin Hq. unfold quiescent in Hq. rewrite forallb_forall in Hq.
+  specialize (Hq (i, ni) Hin). cbn [snd] in Hq.
+  apply andb_true_iff in Hq. destruct Hq as [Hq _]. apply andb_true_iff in Hq. destruct Hq as [Hq _].
+  rewrite forallb_forall in Hq. unfold out_queue. destruct (aget j (cn_out ni)) as [q|] eqn:E; [|reflexivity].
+  specialize (Hq (j, q) (aget_In _ _ _ E)). cbn [snd] in Hq. destruct q; [reflexivity|discriminate].
+Qed.
+
+(* Spec_C12 as evaluated by the check (the boolean functions of the model), at every quiescent point of a clean
+   schedule: every view of a RUNNING instance is true, and so is every running set. *)
+Theorem agreement_at_quiescence : forall truths tr c,
+  NoDup (akeys truths) -> (forall i t, aget i truths = Some t -> NoDup (akeys t)) ->
+  clean (cinit truths) tr = true -> crun (cinit truths) tr = Ok c ->
+  quiescent c = true -> view_true c = true /\ running_true c = true.
+Proof.
+  intros truths tr c Hnd Ht Hc Hr Hq.
+  assert (Hk : NoDup (akeys (c_nodes c))) by (rewrite (crun_keys tr _ c Hr), cinit_keys; exact Hnd).
+  destruct (cinit_inv truths Ht) as [W0 P0].
+  destruct (clean_inv tr _ c W0 P0 Hc Hr) as [W _].
+  split.
+  - unfold view_true. apply forallb_forall. intros [j nj] Hin. cbn [fst snd].
+    assert (Ej : aget j (c_nodes c) = Some nj) by (apply In_aget; assumption).
+    unfold view_true_at. apply forallb_forall. intros [i sc] _. cbn [fst].
+    destruct (adm (cn_ctx nj) i) as [[]|] eqn:Ea; try reflexivity.
+    destruct (aget i (c_nodes c)) as [ni|] eqn:Ei; [|reflexivity].
+    apply forallb_forall. intros [k t] Hin3. cbn [fst snd].
+    assert (Ek : aget k (cn_truth ni) = Some t) by (apply In_aget; [apply (nw_truth _ _ _ (W i ni Ei))|exact Hin3]).
+    rewrite (agreement_partial truths tr c Ht Hc Hr j i nj ni Ej Ei Ea
+               (quiescent_out c i ni j (aget_In _ _ _ Ei) Hq) k t Ek).
+    apply otinfo_eqb_eq. reflexivity.
+  - unfold running_true. apply forallb_forall. intros [j nj] Hin. cbn [snd].
+    assert (Ej : aget j (c_nodes c) = Some nj) by (apply In_aget; assumption).
+    unfold running_true_at. apply forallb_forall. intros [i sc] _. cbn [fst].
+    destruct (adm (cn_ctx nj) i) as [[]|] eqn:Ea; try reflexivity.
+    destruct (aget i (c_nodes c)) as [ni|] eqn:Ei; [|reflexivity].
+    apply forallb_forall. intros [k [st e]] Hin3. cbn [fst snd].
+    assert (Ek : aget k (cn_truth ni) = Some (st, e)) by (apply In_aget; [apply (nw_truth _ _ _ (W i ni Ei))|exact Hin3]).
+    destruct (running_agreement truths tr c Ht Hc Hr j i nj ni Ej Ei Ea
+                (quiescent_out c i ni j (aget_In _ _ _ Ei) Hq) k st e Ek) as [p [Ep [R1 R2]]].
+    rewrite Ep. destruct (is_running_like st) eqn:E1; [apply R1; reflexivity|].
+    destruct (is_stopped_like st) eqn:E2; [rewrite (R2 eq_refl); reflexivity|reflexivity].
+Qed.
